@@ -270,7 +270,7 @@ class Check(PropertyCheck):
     def build_model(self):
         return vlib.build_ocaml("rle_model", os.path.join(vlib.COQ, "Extract", "ml"), ["rle_model"], "rle_driver.ml")
 
-    def run_cases(self, exe, cases, nproc=None):
+    def run_cases(self, exe, cases, nproc=None, timeout=400, soft_timeout=False):
         """Run a line-protocol executable over the cases in parallel chunks.
         Returns a list of output lines (stripped); a crash on a case gives '<crash rc=..>'."""
         nproc = nproc or min(vlib.NCPU, 12)
@@ -285,8 +285,13 @@ class Check(PropertyCheck):
             restarts = 0
             while i < hi:
                 inp = ("\n".join(cases[i:hi]) + "\n").encode()
-                rc, o, e = vlib.sh([exe], input=inp, timeout=400)
+                rc, o, e = vlib.sh([exe], input=inp, timeout=timeout)
                 lines = o.splitlines()
+                if rc == 124 and soft_timeout:      # slow build ran out of time: the rest is not evaluated
+                    for k, l in enumerate(lines[:hi - i]):
+                        res[i + k] = l.strip()
+                    self.notes.append("%s: time limit reached, %d cases of a chunk not evaluated" % (os.path.basename(exe), hi - i - len(lines)))
+                    return
                 for k, l in enumerate(lines[:hi - i]):
                     res[i + k] = l.strip()
                 i += min(len(lines), hi - i)
@@ -453,7 +458,9 @@ class Check(PropertyCheck):
         def add(name, cs):
             hist["gen_" + name] = len(cs)
             cases.extend(cs)
+        lo = len(cases)
         add("small_all_splittings", self.gen_small(thorough, 25000 * scale))
+        self.small_range = (lo, len(cases))
         add("mid_random_splittings", self.gen_mid((60000 if thorough else 6000) * scale))
         add("fill_level", self.gen_fill(1 if thorough else 6))
         add("exact_runs", self.gen_runs((300 if thorough else 40) * scale))
@@ -469,9 +476,21 @@ class Check(PropertyCheck):
         self.cases = cases
         outs = {}
         ths = []
+        # the sanitizer build needs ~25 ms per case (it mallocs a whole encoder and runs the real encode() per block):
+        # it gets every 64th case of the exhaustive small sweep, every 8th short case, and all long / exact-run cases
+        lo, hi = getattr(self, "small_range", (0, 0))
+        asan_idx = [i for i in range(len(cases))
+                    if (i % 64 == 0 if lo <= i < hi else (i % 8 == 0 or len(cases[i]) > 400))]
         for nm, exe in list(hs.items()) + [("model", md)]:
             def job(nm=nm, exe=exe):
-                outs[nm] = self.run_cases(exe, cases, nproc=6 if nm != "model" else 12)
+                if nm == "asan":
+                    sub = self.run_cases(exe, [cases[i] for i in asan_idx], nproc=8, timeout=900, soft_timeout=True)
+                    full = [None] * len(cases)
+                    for i, o in zip(asan_idx, sub):
+                        full[i] = o
+                    outs[nm] = full
+                else:
+                    outs[nm] = self.run_cases(exe, cases, nproc=6 if nm != "model" else 12)
             t = threading.Thread(target=job)
             t.start()
             ths.append(t)
@@ -490,7 +509,7 @@ class Check(PropertyCheck):
                 dis.append({"case": c[:600], "impl": (a or "")[:400], "model": (b or "")[:400]})
             for fl in flavors[1:]:
                 o = outs[fl][i]
-                if o != a and len(dis) < 50:
+                if o is not None and o != a and len(dis) < 50:
                     dis.append({"case": c[:600], "impl": (a or "")[:400], "impl_" + fl: (o or "")[:400]})
             toks = c.split(" ", 2)
             hist["mode_" + toks[0]] += 1
@@ -544,7 +563,7 @@ class Check(PropertyCheck):
                                               "spec=%s oracle=%s" % ((o or "")[:300], want[:300])))
         hist["spec_vs_oracle_cases"] = len(spec_cases)
         return {
-            "evaluations": len(cases) * (len(flavors) + 1) + len(spec_cases),
+            "evaluations": sum(1 for nm in outs for o in outs[nm] if o is not None) + len(spec_cases),
             "distinct_nontrivial": len(nontriv),
             "rule": "per-call trace (return value, consumed, nblock, rle_state, rle_character) and finished blocks (weight, crc, bytes) of real "
                     "collect() [builds: %s] vs extracted model on: %s of inputs <= 8 bytes over 2 letters / <= 6 over 3 letters with capacities 1..n+2; "
